@@ -134,7 +134,7 @@ def literal_cases(draw):
                     it = ("a", "cp", 97)      # implementation-defined: not asserted
                 if prefix == "u" and cp > 0xffff:
                     it = ("\u20ac", "cp", 0x20ac)
-            objs.append({"kind": "char", "prefix": prefix, "items": [it]})
+            objs.append({"kind": "char", "prefix": prefix, "items": [it], "splice": draw(splices())})
             continue
         nparts = draw(st.sampled_from([1, 1, 2, 3, 4]))
         prefix = draw(st.sampled_from(["", "", "u8", "u", "U", "L"]))
@@ -146,8 +146,24 @@ def literal_cases(draw):
         if prefix and all(p == "" for p, _ in parts):
             parts[draw(st.integers(0, nparts - 1))] = (prefix, parts[0][1])
         how = draw(st.sampled_from(["array", "array", "bounded-exact", "bounded-longer", "pointer", "sizeof"]))
-        objs.append({"kind": "string", "prefix": prefix, "parts": parts, "how": how})
+        objs.append({"kind": "string", "prefix": prefix, "parts": parts, "how": how, "splice": draw(splices())})
     return {"t": t, "objs": objs}
+
+
+@st.composite
+def splices(draw):
+    """Positions (as fractions of the spelling's length) at which 1-3 backslash-newline pairs in a row are put into the spelling of a
+    literal: they vanish in translation phase 2, wherever they stand - inside the prefix, an escape sequence or between the quotes."""
+    if draw(st.integers(0, 3)):
+        return []
+    return [[draw(st.integers(0, 1000)), draw(st.sampled_from([1, 1, 2, 3]))] for _ in range(draw(st.integers(1, 3)))]
+
+
+def spliced(lit, sp):
+    for pos, cnt in sorted(sp or [], reverse=True):
+        k = 1 + pos * (len(lit) - 1) // 1001 if len(lit) > 1 else 1
+        lit = lit[:k] + "\\\n" * cnt + lit[k:]
+    return lit
 
 
 def render(case):
@@ -167,7 +183,7 @@ def render(case):
                 val = v - (1 << 32)
             else:
                 val = v
-            out.append("long long c%d = %s;" % (i, lit))
+            out.append("long long c%d = %s;" % (i, spliced(lit, o.get("splice"))))
             exp.append(("c%d" % i, (val % (1 << 64)).to_bytes(8, "little"), lit))
             continue
         items = [it for _, its in o["parts"] for it in its]
@@ -175,6 +191,8 @@ def render(case):
         lit = " ".join('%s"%s"' % (p, body_text(its)) for p, its in o["parts"])
         # a `?` escape guard: "??" could form a trigraph in the reference preprocessor; avoided by construction (no raw '?')
         et = elem_type(o["prefix"])
+        desc = lit
+        lit = spliced(lit, o.get("splice"))
         fmt = {1: "B", 2: "H", 4: "I"}[width]
         full = struct.pack("<%d%s" % (len(units) + 1, fmt), *(units + [0]))
         how = o["how"]
